@@ -29,6 +29,9 @@ pub fn extra_depth() -> u64 {
     if scale() > 1 { 1 } else { 0 }
 }
 
+/// one run in this many is a long history against a single part of a single contract
+pub const LONG_RUN_ONE_IN: u64 = 120;
+
 /// which profiles decide which property, with their share of the run budget
 pub fn profiles(prop: &str) -> Vec<(Box<dyn Profile>, u64)> {
     match prop {
@@ -39,7 +42,7 @@ pub fn profiles(prop: &str) -> Vec<(Box<dyn Profile>, u64)> {
         "C11" => vec![(Box::new(profile::f5::CustomChain { prop: "C11" }), 1)],
         "C20" => vec![(Box::new(profile::remotes::StoredHandles), 1)],
         "C12" => vec![(Box::new(profile::twin::ProxyTwin { custom_chain: false }), 3), (Box::new(profile::twin::ProxyTwin { custom_chain: true }), 1)],
-        "C06" => vec![(Box::new(profile::f2::EntryPointTwin), 1)],
+        "C06" => vec![(Box::new(profile::f2::EntryPointTwin), 3), (Box::new(profile::f3::ReplyTwin), 1)],
         "C07" => vec![(Box::new(profile::f3::F3 { prop: "C07" }), 1)],
         "C08" => vec![(Box::new(profile::f3::F3 { prop: "C08" }), 1)],
         "C09" => vec![(Box::new(profile::f3::F3 { prop: "C09" }), 1)],
